@@ -58,7 +58,9 @@ PROPS = {
                 mc=["MC_base"]),
     "C33": dict(mix=[("xtrig", 1.0, {})], mc=[]),
     "C32": dict(mix=[("expire", 1.0, {})], mc=[]),
-    "C19": dict(mix=[("restart", 1.0, {})], mc=["MC_cmds:MC_cmds1", "MC_cmds"]),
+    "C19": dict(mix=[("restart", 0.6, {}),
+                     # hold list / hold point / stop point / stop task across restart, also twice, also after a reload
+                     ("hold", 0.2, {}), ("stopcmds", 0.2, {})], mc=["MC_cmds:MC_cmds1", "MC_cmds", "MC_crash"]),
     "C20": dict(mix=[("crash", 1.0, {})], mc=["MC_crash:MC_crash_finding!", "MC_crash"]),
     "C31": dict(mix=[("plain", 0.4, {"features": {"sequential": "always"}}),
                      ("warm", 0.2, {"features": {"sequential": "always"}}),
